@@ -5,6 +5,7 @@
 package vsync
 
 import (
+	"runtime"
 	"sync"
 	"unsafe"
 
@@ -103,4 +104,13 @@ func (o *Once) Do(f func()) {
 		o.done = true
 	}()
 	f()
+}
+
+// Gosched replaces runtime.Gosched: under the scheduler a wait loop yields to the other threads.
+func Gosched() {
+	if sched.Active() {
+		sched.Yield()
+		return
+	}
+	runtime.Gosched()
 }
